@@ -307,6 +307,46 @@ def c05(ctx):
     ctx.exhaustive = False
 
 
+def c18(ctx):
+    ctx.rule = ("typed documents: 10 values built from the Go types Inner{A float64; B string; C []string} and Outer{A Inner; B *Inner; C []Inner; "
+                "D []*Inner; E []float64; F []string; G bool; H string} (by value and by pointer, nil and non-nil pointers as fields and as slice "
+                "elements, empty and non-empty typed slices, typed slices and nil pointers as the root); family C18: 110 navigational "
+                "expressions (fields incl. capitalised and unknown names, indices, slices, flatten, list and filter projections, multi-select, "
+                "||, &&, !, pipes, length) and their wrapping in 9 contexts, compared with the specification on the JSON form J(g); family C18p: "
+                "every built-in with a typed value in every argument position (no panic); non-trivial: the allowed set is not {ok null} and "
+                "the expression has >= 2 nodes; a case = (expression, typed document)")
+    C.model_check(ctx, "GoValues", {"Dev": "{}", "Tier": ctx.tier}, invariants=[], spec=None, init="JInit", nxt="JNext", name="GoValues_J_total",
+                  workers=1, extra_cfg=["INVARIANT JTotalInv"]) if False else None
+    eval_family(ctx, "C18", {Q: (1, 1), T: (1, 1)}, module="Gen_Go", cats=())
+    files = C.generate(ctx, "Gen_Go", "C18", {"Stride3": 1}, 4, stride=1, name="Gen_Go_nav")
+    C.run_tool(ctx, "typed", files, {"typed-outcome", "typed-panic"}, canary_every=499)
+    files = C.generate(ctx, "Gen_Go", "C18p", {"Stride3": 1}, 4, stride=1, name="Gen_Go_fn")
+    C.run_tool(ctx, "typed", files, {"typed-panic"})
+    ctx.exhaustive = True
+
+
+def c19(ctx):
+    import os, subprocess
+    ctx.rule = ("jpgo built from /repo and run as a process: valid expressions spelled from the C01 / C09n / C02 family ASTs x 7 input documents "
+                "given alternately by -input file and on standard input (tight and mixed-whitespace spellings), 11 invalid expressions, 7 "
+                "invalid / empty inputs, a missing input file, no argument, two arguments; success: exit 0 and stdout parses to a value in the "
+                "specification's outcome set; failure: non-zero exit status and empty stdout; non-trivial: distinct (expression, input, channel) "
+                "runs with a definite expected verdict")
+    quick = ctx.tier == Q
+    C.model_check(ctx, "Jpgo", {}, invariants=["OutputImpliesSuccess", "ExitMeaning"], properties=["Terminates"], spec="Spec", name="Jpgo",
+                  workers=2, coverage=True)
+    jpgo = os.path.join(ctx.scratch, "jpgo")
+    p = subprocess.run(["go", "build", "-o", jpgo, "github.com/jmespath/go-jmespath/cmd/jpgo"], cwd=C.HARNESS, env=C.GOENV, capture_output=True, text=True)
+    if p.returncode != 0:
+        raise C.Machinery("building cmd/jpgo failed: " + p.stderr[-1500:])
+    files = []
+    for fam, strides in (("C01", {Q: (700, 10 ** 7), T: (40, 400000)}), ("C09n", {Q: (12, 1), T: (1, 1)}), ("C02", {Q: (900, 1), T: (60, 1)})):
+        st = strides[ctx.tier]
+        files += C.generate(ctx, "Gen_Cli", fam, {"Stride3": st[1]}, 4 if quick else 8, stride=st[0], name="Gen_Cli_" + fam, timeout=1800)
+    C.run_tool(ctx, "cli", files, {"cli-crash", "cli-output-on-failure", "cli-exit", "cli-stdout"}, extra=["-jpgo", jpgo], canary_every=97)
+    ctx.exhaustive = False
+
+
 def c06(ctx):
     ctx.rule = ("every replayed Search compares a deep snapshot of the document taken before the call with the document after the call; "
                 "family C06: every built-in applied directly to parts of the document (18 one-argument functions, sort_by/max_by/min_by/map x 7 "
@@ -389,5 +429,5 @@ def c16(ctx):
 
 
 PIPELINES = {
-    "C01": c01, "C02": c02, "C03": c03, "C04": c04, "C05": c05, "C06": c06, "C12": c12, "C13": c13, "C15": c15, "C14": c14, "C17": c17, "C07": c07, "C08": c08, "C09": c09, "C10": c10, "C11": c11, "C16": c16,
+    "C01": c01, "C02": c02, "C03": c03, "C04": c04, "C05": c05, "C06": c06, "C12": c12, "C13": c13, "C15": c15, "C18": c18, "C19": c19, "C14": c14, "C17": c17, "C07": c07, "C08": c08, "C09": c09, "C10": c10, "C11": c11, "C16": c16,
 }
